@@ -62,7 +62,10 @@ Footers == <<
   <<Alt(34200, 37800, <<"M", 10, 1, 0>>, 7200, <<"M", 4, 1, 0>>, 10800, TRUE), 2>>,
   \* the last <weekday> of February: in some leap years it is the 29th
   <<Alt(-10800, -7200, <<"M", 10, 3, 0>>, 0, <<"M", 2, 5, 0>>, 0, FALSE), 2>>,
-  <<Alt(7200, 10800, <<"M", 2, 5, 4>>, 10800, <<"M", 10, 5, 0>>, 14400, TRUE), 2>> >>
+  <<Alt(7200, 10800, <<"M", 2, 5, 4>>, 10800, <<"M", 10, 5, 0>>, 14400, TRUE), 2>>,
+  \* version 3: switch-over times that are negative and carry minutes / seconds (the sign applies to the whole time)
+  <<Alt(-10800, -7200, <<"M", 3, 5, 0>>, -5400, <<"M", 10, 5, 0>>, -2730, TRUE), 3>>,
+  <<Alt(3600, 7200, <<"M", 3, 5, 0>>, -90061, <<"M", 10, 5, 0>>, 97261, TRUE), 3>> >>
 
 Thorough == IOEnv.TIER = "thorough"
 Years == {2023, 2024, 2032, 2037, 2038, 2100, 2400, 1999}       \* 29 February: a Thursday in 2024, a Sunday in 2032 \cup (IF Thorough THEN {1970, 1996, 2000, 2025, 2026, 2027, 2028, 2029, 2030, 2399} ELSE {})
